@@ -62,7 +62,7 @@ def run(ctx):
             o = d.evalv('%s%s%s' % (xt, SYMS[r], yt)) if text else d.call(relfn[i], vx, vy)
             if o['k'] == 'internal':
                 e['k'] = 'internal'
-                e['detail'] = o.get('detail')
+                e.setdefault('detail', o.get('detail'))
             e['o'].append(asint(o))
         events.append(e)
 
